@@ -985,7 +985,10 @@ class Interp:
         if isinstance(t, ast.Name):
             fr.locals[t.id] = v
         elif isinstance(t, (ast.Tuple, ast.List)):
-            items = self.lib.iterate(self, v) if not isinstance(v, (tuple, list)) else list(v)
+            if isinstance(v, LibObj) and hasattr(v, "unpack"):
+                items = v.unpack(self, len(t.elts), t)
+            else:
+                items = self.lib.iterate(self, v) if not isinstance(v, (tuple, list)) else list(v)
             if len(items) != len(t.elts):
                 raise RaiseSig(self.make_exc("ValueError", site=t))
             for e, x in zip(t.elts, items):
